@@ -135,7 +135,10 @@ class UniqueItemsConstraint(Constraint):
         assert self.unique
 
     def validate(self, data: Any) -> bool:
-        return len(set(map(to_hashable, data))) == len(data)
+        try:
+            return len(set(map(to_hashable, data))) == len(data)
+        except TypeError:  # unhashable or unsortable items, fall back on comparison
+            return all(x != y for i, x in enumerate(data) for y in data[:i])
 
 
 @dataclass
